@@ -9,7 +9,9 @@ CHECK = {
         unit("issue", "pki", ["pki/cx_common_test.go", "pki/c15_model_test.go", "pki/c15_issue_test.go"], "^TestVerif_C15_",
              quick={"checks": 1500, "shards": 1, "cap": 600},
              thorough={"checks": 25000, "shards": 16, "cap": 1500},
-             floors={"issue": {"issued": 0.05, "refused": 0.05, "nontrivial": 0.05}},
+             floors={"issue": {"issued": 0.05, "refused": 0.05, "nontrivial": 0.05, "role-patches": 0.05,
+                               "role-patches-on-cidr-role-not-naming-the-cidrs": 0.02, "request-ip-san-outside-role-cidrs": 0.005,
+                               "ttl-limited:in-clamp-window:refused": 0.003}},
              # serial numbers and generated keys come from crypto/rand and the seen-serial set lives as long as the
              # memoised mount, so a serial collision need not recur when rapid re-runs the case; every verdict is a
              # deterministic fact about the certificate actually returned, so it still counts.
